@@ -194,6 +194,7 @@ R.contract(
 
 R.contract(
     T4 + "_get_op_kind", "C03",
+    unreachable_ok=["if isinstance(op, dict)", "return str(op.get", "return ''"],   # ops are records with a .kind here
     types={"ops": "List[PlanOp]", "idx": "int"},
     returns="str",
     pure_result="ite(0 - len(ops) <= idx and idx < len(ops), ops[ite(idx < 0, idx + len(ops), idx)].kind, '')",
@@ -236,7 +237,7 @@ NB = "not " + BLOCKED.replace("cooldowns[", "ctx.config.t4['cooldowns'][").repla
 R.contract(
     T4 + "t4_filter", "C03",
     types={"ctx": "T4Ctx", "state": "T4State", "t1": "None", "t2": "None", "plan": "T4Plan", "utter": "None"},
-    axioms=AX_SUMSQ + [a.replace("deltas", "plan.deltas") for a in AX_GSUM],
+    # gsum(...) is used here only as an opaque term carried from _combine_by_ckey's contract: no recursive axioms needed
     requires=[("validator-ranges", "ctx.config.t4['churn_cap_edges'] >= 0 and ctx.config.t4['delta_norm_cap_l2'] > 0 "
                                    "and ctx.config.t4['novelty_cap_per_node'] > 0")],
     ensures=[
@@ -274,11 +275,11 @@ R.contract(
                     "forall(i, 0 <= i < len(clamped), is_none(clamped[i].op_idx) or not (some(clamped[i].op_idx) in blocked_ops))",
                     "forall(i, 0 <= i < len(clamped), clamped[i].delta == clip(gsum(plan.deltas, len(plan.deltas), ckey_of(clamped[i])), "
                     "  ctx.config.t4['novelty_cap_per_node']) and absr(clamped[i].delta) <= ctx.config.t4['novelty_cap_per_node'])"],
-        "scaled": ["ghost:lemma_scale_shrinks(scale)", INC % {"x": "scaled"}, PROPOSED % {"x": "scaled"}, "0 < scale and scale <= 1",
+        "scaled": ["forget-vars:combined,after_cd", "ghost:lemma_scale_shrinks(scale)", INC % {"x": "scaled"}, PROPOSED % {"x": "scaled"}, "0 < scale and scale <= 1",
                    "forall(i, 0 <= i < len(scaled), is_none(scaled[i].op_idx) or not (some(scaled[i].op_idx) in blocked_ops))",
                    "forall(i, 0 <= i < len(scaled), scaled[i].delta == clip(gsum(plan.deltas, len(plan.deltas), ckey_of(scaled[i])), "
                    "  ctx.config.t4['novelty_cap_per_node']) * scale and absr(scaled[i].delta) <= ctx.config.t4['novelty_cap_per_node'])"],
-        "approved": ["forall2(i, j, 0 <= i and i < j and j < len(approved), ckey_of(approved[i]) != ckey_of(approved[j]))",
+        "approved": ["forget-vars:clamped", "forall2(i, j, 0 <= i and i < j and j < len(approved), ckey_of(approved[i]) != ckey_of(approved[j]))",
                      PROPOSED % {"x": "approved"}, "len(approved) <= ctx.config.t4['churn_cap_edges']",
                      "forall(i, 0 <= i < len(approved), is_none(approved[i].op_idx) or not (some(approved[i].op_idx) in blocked_ops))",
                      "forall(i, 0 <= i < len(approved), approved[i].delta == clip(gsum(plan.deltas, len(plan.deltas), ckey_of(approved[i])), "
